@@ -155,14 +155,31 @@ func TestKnownRedundantHolder(t *testing.T) {
 	})
 }
 
-// TestKnownISNEmptyShare observes the second catalogued finding on the same structure: ISN deals
-// shareholder 1 an empty share and converting it to additive form over the (qualified) quorum
-// {1,2,3} panics.
-func TestKnownISNEmptyShare(t *testing.T) {
-	p := &policy.Policy{Family: policy.CNF, N: 3, MUS: []uint64{0b011, 0b101}}
-	c := newCase(t, "KnownISNEmptyShare", p, []uint64{1, 2, 3}, policy.Ordinal, 1)
-	empty, panicked := envs["k256"].ISNEmptyShareProbe(t, c, 0)
-	vlib.Known(knownISNEmpty, panicked, fmt.Sprintf("isn over cnf({1,2},{1,3}): shareholder 1 is dealt an empty share (observed empty=%v); Scheme.ConvertShareToAdditive(share of 1, quorum {1,2,3}) panics with index out of range in isn/share.go ToAdditive", empty))
+// TestISNRedundantHolder is the regression test of the fixed finding
+// C02-isn-empty-share-toadditive-panics: ISN over structures with a holder that lies in every
+// maximal unqualified set (a CNF and a gate tree), every subset, all clauses of the ISN body.
+func TestISNRedundantHolder(t *testing.T) {
+	const test = "ISNRedundantHolder"
+	cn := &policy.Policy{Family: policy.CNF, N: 3, MUS: []uint64{0b011, 0b101}}
+	// AND(0, OR(0,1), 2) = "0 and 2": holder 1 is redundant; maximal unqualified sets {1,2}, {0,1}
+	or := &policy.Node{Leaf: -1, T: 1, Children: []*policy.Node{{Leaf: 0}, {Leaf: 1}}}
+	gt := &policy.Policy{Family: policy.Gate, N: 3, Root: &policy.Node{Leaf: -1, T: 3, Children: []*policy.Node{{Leaf: 0}, or, {Leaf: 2}}}}
+	for _, p := range []*policy.Policy{cn, gt} {
+		if p.RedundantHolders() == 0 {
+			t.Fatalf("%v has no redundant holder", p)
+		}
+		for i, field := range fieldNames {
+			ids := ordinalIDs(p.N)
+			if i%2 == 1 {
+				ids = sparseIDs(p)
+			}
+			vlib.NoPanic(t, fmt.Sprintf("isn over %v", p), func() {
+				c := newCase(t, test, p, ids, policy.Ordinal, h64(vlib.Seed(), p, field))
+				c.allSubsets()
+				envs[field].ISN(t, c)
+			})
+		}
+	}
 }
 
 // TestKnownTassaLowerDegree observes the third catalogued finding: hierarchy (2;{1,2}), every share
